@@ -15,7 +15,7 @@ EXPLANATION = (
     "(no appendleft/pop/insert/remove/rotate/clear), every popped entry is written exactly once in its iteration; publish() "
     "never rejects for window reasons; the refill runs after the append in publish() and after the removal in the PUBACK "
     "and PUBCOMP handlers. Decides these structural clauses; the numeric bound over histories is not explored. "
-    " W-TRIGGER also covers every other packet that frees window slots while the connection stays up (the purge at a clean CONNACK): the refill follows, unless the path was taken under 'queue empty' or the exchange only moved to the release window (PUBREC). W-MODE - the session mode under which a loss keeps or purges queue and window is recorded by the accepted connect() only. W-FIFO also: the queue is an unbounded deque - no deque built in a function that handles queuePublishTx has a maxlen (a full bounded deque drops from the other end on append).")
+    " W-TRIGGER also covers every other packet that frees window slots while the connection stays up (the purge at a clean CONNACK): the refill follows, unless the path was taken under 'queue empty' or the exchange only moved to the release window (PUBREC). W-MODE - the session mode under which a loss keeps or purges queue and window is recorded by the accepted connect() only. W-COUNT - an entry leaves the publish window only with its exchange (Deferred fired, handed to the PUBREL, or the entry registered again): what is dropped silently is on the wire and no longer counted. W-FIFO also: the queue is an unbounded deque - no deque built in a function that handles queuePublishTx has a maxlen (a full bounded deque drops from the other end on append).")
 ASSUMPTIONS = []
 
 W, Q = "windowPublish", "queuePublishTx"
